@@ -19,6 +19,10 @@ def run(ctx):
     snis = ["example.com"] + [name(k) for k in (96, 128, 200, 253)]
     hel = [e for e in ctx.drv("hellos", {"cases": [{"id": i, "sni": sn, "n": n if sn == "example.com" else max(8, n // 8), "omit": True}
                                                    for i in ids for sn in snis]}) if e["ev"] == "Hello"]
+    # the same parrots in a process that has first fingerprinted hellos of every GREASE-ECH parrot (an importer must not
+    # change what later connections send: candidate tables are not shared state)
+    hel += [e for e in ctx.drv("hellos", {"pre_fp": ids, "cases": [{"id": i, "sni": "example.com", "n": n, "omit": True} for i in ids]},
+                               name="hellos_after_fp") if e["ev"] == "Hello"]
     notsent = [e for e in hel if not e["sent"]]
     if notsent:
         raise vlib.Machinery("hello not sent: %r" % notsent[0]["err"])
